@@ -445,15 +445,16 @@ def _layout_kind(fn) -> Optional[str]:
     return "strided" if strided else None
 
 
-def _delegate(model, rep, c, fn):
-    """_uniform of a class that refines through another mesh class
-    (second-order meshes).  The method is interpreted on a stub mesh: which
-    class does the refinement, and do the named subdomains reach it?  If the
-    result carries no subdomains, Mesh.refined applies the generic
-    'k + j*nt' propagation to it - right only if the refining class stores
-    the children in whole-mesh blocks."""
-    R2 = "C12-R2"
-    cons = f"{c.name}._uniform:delegated-layout"
+SELF_SUB = "SUB(self)"
+
+
+def interpret_delegate(model, c, fn, args=()):
+    """Interpret a refinement method that works through another mesh class
+    (X.from_mesh(Y.from_mesh(self).refined(...)), possibly with replace()
+    around the steps) on a stub mesh.  Returns the stub of the result: its
+    .sub is None (no subdomains), ("refined-by", Y, SUB(self)) or something
+    else; .hist lists (refining class, layout kind of its _uniform, whether
+    it was given subdomains, arguments)."""
     fm = model.cls("skfem.mesh.mesh", "Mesh").methods["from_mesh"]
     # from_mesh builds cls(doflocs=..., t=...): no tags, same cell numbering
     ctor = [n for n in walk_no_nested(fm.node) if isinstance(n, ast.Call)
@@ -467,7 +468,6 @@ def _delegate(model, rep, c, fn):
     if "t" not in ckw or "mesh.t" not in src(ckw["t"]):
         raise AnalysisError("Mesh.from_mesh: connectivity not taken from "
                             "the given mesh")
-    SELF_SUB = "SUB(self)"
 
     class M:
         """stub mesh: class name, subdomains, refinement history"""
@@ -477,65 +477,81 @@ def _delegate(model, rep, c, fn):
         def skv_getattr(self, name):
             if name in ("_subdomains", "subdomains"):
                 return self.sub
-            if name in ("refined", "_uniform"):
-                def refined(a, k, n, direct=(name == "_uniform")):
-                    if a or k:
-                        raise Unsupported("refined with arguments")
+            if name in ("refined", "_uniform", "_adaptive"):
+                def refined(a, k, n, meth=name):
+                    if k:
+                        raise Unsupported("refinement with keywords")
                     rcs = [x for x in model.all_classes()
                            if x.name == self.cname
                            and x.path.startswith("skfem/mesh/")]
-                    rf = rcs[0].find_method("_uniform") if len(rcs) == 1 \
-                        else None
+                    uniform = meth == "_uniform" or (
+                        meth == "refined" and (not a or isinstance(
+                            a[0], (int, Fraction))))
+                    rf = rcs[0].find_method(
+                        "_uniform" if uniform else "_adaptive") \
+                        if len(rcs) == 1 else None
                     if rf is None:
-                        raise Unsupported(f"{self.cname}._uniform")
-                    kind = _layout_kind(rf)
+                        raise Unsupported(f"{self.cname} refinement")
+                    kind = _layout_kind(rf) if uniform else "adaptive"
                     own = [kk.value for nn in walk_no_nested(rf.node)
                            if isinstance(nn, ast.Call)
                            and src(nn.func) == "replace"
                            for kk in nn.keywords if kk.arg == "_subdomains"]
                     drops = not own or all(isinstance(v, ast.Constant)
                                            and v.value is None for v in own)
-                    if self.sub is None or (direct and drops):
-                        # _uniform called directly on a class that leaves
-                        # the subdomains to Mesh.refined: they are lost
+                    generic_ok = uniform and meth == "refined"
+                    if self.sub is None or (drops and not generic_ok):
+                        # the refining method leaves the subdomains to
+                        # Mesh.refined's generic propagation, which only
+                        # uniform refinement through refined() gets
                         sub = None
                     else:
-                        # the refining class maps them itself (own map,
-                        # verified separately) or leaves them to the
-                        # generic propagation
                         sub = ("refined-by", self.cname, self.sub)
                     return M(self.cname, sub,
                              self.hist + [(self.cname, kind,
-                                           self.sub is not None)])
+                                           self.sub is not None, tuple(a))])
                 return PyFunc(refined)
             raise Unsupported("mesh." + name)
 
-    def from_mesh(args, kwargs, node):
-        if len(args) == 1 and isinstance(args[0], M) and not kwargs and \
+    def from_mesh(a, kwargs, node):
+        if len(a) == 1 and isinstance(a[0], M) and not kwargs and \
                 isinstance(node.func, ast.Attribute) and isinstance(
                     node.func.value, ast.Name):
-            return M(node.func.value.id, None, list(args[0].hist))
+            return M(node.func.value.id, None, list(a[0].hist))
         raise Unsupported("from_mesh call form")
 
-    def hook(interp, name, args, kwargs, node):
-        if name.endswith("replace") and args and isinstance(args[0], M):
+    def hook(interp, name, a, kwargs, node):
+        if name.endswith("replace") and a and isinstance(a[0], M):
             extra = set(kwargs) - {"_subdomains"}
             if extra:
                 raise Unsupported(f"replace({sorted(extra)})")
-            return M(args[0].cname, kwargs.get("_subdomains", args[0].sub),
-                     list(args[0].hist))
+            return M(a[0].cname, kwargs.get("_subdomains", a[0].sub),
+                     list(a[0].hist))
         return NotImplemented
     me = M(c.name, SELF_SUB, [])
     try:
         it = Interp(model, call_hook=hook)
         it.overrides[fm.qualname] = PyFunc(from_mesh)
-        res = it.call(fn, [], {}, self_obj=me)
+        res = it.call(fn, list(args), {}, self_obj=me)
     except (Unsupported, Raised) as e:
-        raise AnalysisError(f"{c.name}._uniform (delegating): {e}")
+        raise AnalysisError(f"{c.name}.{fn.name} (delegating): {e}")
     if not isinstance(res, M) or len(res.hist) != 1:
-        raise AnalysisError(f"{c.name}._uniform: exactly one delegated "
+        raise AnalysisError(f"{c.name}.{fn.name}: exactly one delegated "
                             f"refinement expected")
-    rcls, kind, had_sub = res.hist[0]
+    return res
+
+
+def _delegate(model, rep, c, fn):
+    """_uniform of a class that refines through another mesh class
+    (second-order meshes).  The method is interpreted on a stub mesh: which
+    class does the refinement, and do the named subdomains reach it?  If the
+    result carries no subdomains, Mesh.refined applies the generic
+    'k + j*nt' propagation to it - right only if the refining class stores
+    the children in whole-mesh blocks."""
+    R2 = "C12-R2"
+    cons = f"{c.name}._uniform:delegated-layout"
+    res = interpret_delegate(model, c, fn)
+    rcls, kind, had_sub, _ = res.hist[0]
     if kind is None:
         raise AnalysisError(f"{rcls}._uniform: connectivity construction "
                             f"not recognised")
@@ -1088,8 +1104,10 @@ MUTANTS = [
       "        return MeshTet2.from_mesh(MeshTet1.from_mesh(self).refined())"),
      "C12-R2"),
     ("second-order tetrahedra keep their unrefined subdomains",
-     (_T2, "        return replace(MeshTet2.from_mesh(m), _subdomains="
+     (_T2, "                    _subdomains=self._subdomains).refined()\n"
+      "        return replace(MeshTet2.from_mesh(m), _subdomains="
       "m._subdomains)",
+      "                    _subdomains=self._subdomains).refined()\n"
       "        return replace(MeshTet2.from_mesh(m), _subdomains="
       "self._subdomains)"), "C12-R2"),
     ("line refinement numbers the midpoints from max(t) + 1",
